@@ -113,3 +113,19 @@ pub proof fn lemma_pack_offset{X}(n: int)
         vstd::arithmetic::div_mod::lemma_fundamental_div_mod_converse(n + {I.bytes} - 1, {I.bytes}, q + 1, r - 1);
     }
 }
+/// the three ways of writing the step are the same word (a byte cannot overlap the word shifted by 8; adding it cannot overflow)
+pub proof fn lemma_shl8_forms{X}(w: {I}, b: u8)
+    ensures
+        (w << 8) ^ (b as {I}) == (w << 8) | (b as {I}),
+        (w << 8) as int + (b as {I}) as int <= {I.max} as int,
+        ((w << 8) as int + (b as {I}) as int) as {I} == (w << 8) | (b as {I}),
+{
+    assert((w << 8) ^ (b as {I}) == (w << 8) | (b as {I})) by(bit_vector);
+    assert(add(w << 8, b as {I}) == (w << 8) | (b as {I})) by(bit_vector);
+    assert((w << 8) <= {I.max} - 255) by(bit_vector);
+}
+pub proof fn lemma_shl8_room{X}()
+    ensures forall|w: {I}| #[trigger] (w << 8) <= {I.max} - 255
+{
+    assert forall|w: {I}| #[trigger] (w << 8) <= {I.max} - 255 by { assert((w << 8) <= {I.max} - 255) by(bit_vector); }
+}
